@@ -29,4 +29,14 @@ CHECKS.update({
   "text": "whitelist sign/verify/parse/serialize records for key counts 1..255 (every count <= 8, 127/128/254/255, sampled others) with every signer index for small lists; verify compared with an independent model on honest signatures, the empty-ring forgery (finding F1, fixed), reference-prover rings with small scalars and s+n re-encodings, bit flips, count/length edits and key-list edits.",
   "note": "Trusted: ref/whitelist.py, ref/borromean.py. Degenerate offline_i = -W lists are only checked for memory safety."},
 })
+CHECKS.update({
+ "C15": {
+  "technique": "runtime monitoring: sanitizer build + protocol reference oracle over repeated anti-exfil runs on contexts with default and replaced SHA-256 compression",
+  "text": "s2c_sign / verify_commit / host_commit / signer_commit / anti_exfil_sign / host_verify records (~21k quick) under ASan+UBSan+VERIFY: signature and opening compared byte for byte with the model, commitment verification compared with the model on mutated data / openings / signatures, signer commitment equals the later opening, runs repeated with equal and different host randomness and with an independent SHA-256 compression function installed on either side (the monitor counts its invocations).",
+  "note": "Trusted: ref/s2c.py, ref/ecdsa.py."},
+ "C17": {
+  "technique": "runtime monitoring: sanitizer build + half-aggregation reference oracle; all compositions n<=8; small-group build for s+order re-encodings",
+  "text": "one-shot aggregation of 0..64 signatures compared byte for byte with the draft's formula; every composition of incremental aggregation for n <= 8 (sampled above) gives identical bytes; buffer-length contract 0..32(n+2) in exact-size heap blocks; aggverify compared with the model on honest and mutated aggregates; in the order-13/199 small-group configuration every re-encoding s + k*order of every valid aggregate is rejected.",
+  "note": "Trusted: ref/halfagg.py, ref/schnorr.py; the small-group driver uses the library's own signer and verifier to establish validity."},
+})
 NOT_APPLICABLE = {}
